@@ -94,6 +94,9 @@ LatticeSites(d) ==
                       v \in {"no_ranges", "four_ranges", "cell_not_int", "bound_not_int", "double_colon", "empty_range"} }
           ELSE IF d.cells[c].nranges > 0
           THEN { Site("fill_length", "lat", v, c, 0) : v \in {"one_less", "one_more", "one_more_repeat", "one_more_nrepeat"} }
+               \cup (IF Len(d.cells[c].lunivs) >= 2       \* a trailing repeat that runs one entry past the declared size
+                     THEN { Site("fill_length", "lat", v, c, 0) : v \in {"overshoot_repeat", "overshoot_nrepeat"} }
+                     ELSE {})
           ELSE {}
         : c \in LiveL(d) }
 (* IMP cards of unequal length *)
